@@ -37,7 +37,7 @@ func init() {
 		Doc: "after a node pointer has been captured by a closure that is sent on a channel or started with go, the sender performs no further store to that node " +
 			"(a happens-before edge exists only for writes that precede the hand-off).",
 		Run: runPUB})
-	Register(&Rule{ID: "CACHEAFTER", Props: []string{"C03", "C13"}, Min: 2,
+	Register(&Rule{ID: "CACHEAFTER", Props: []string{"C03", "C13", "C05"}, Min: 2,
 		Doc: "a node enters the NodeCache only after the store is known to hold it: every NodeCache.Add is dominated by the nil-error edge of a Persist.Store or Persist.Load call of the same function " +
 			"(the cache doubles as the 'already persisted' oracle that lets a later flush skip the write).",
 		Run: runCACHEAFTER})
@@ -194,6 +194,10 @@ func errorPropagated(fn *ssa.Function, after ssa.Instruction, r ssa.Value) (bool
 			switch x := b.Instrs[i].(type) {
 			case *ssa.Return:
 				op := x.Results[ei]
+				if isR(op) || ir.Origin(op) == ir.Origin(r) {
+					return
+				}
+				op = ir.ForwardLoad(op) // named results kept in cells: `*err = v; t = *err; return t`
 				if isR(op) || ir.Origin(op) == ir.Origin(r) {
 					return
 				}
